@@ -45,6 +45,7 @@ type Engine struct {
 	typeIDs  map[string]int
 	strIDs   map[string]int
 	verbose  bool
+	blockCanaries bool
 	aliases  map[string]map[string]string // package path -> import alias -> imported path
 }
 
